@@ -97,11 +97,14 @@ def check_case(case):
         out = []
         calls = 0
         vals = []
-        for pi, (name, pat) in enumerate(presentations(*comp, full=case["full"])):
+        pres = presentations(*comp, full=case["full"])
+        if case.get("lattice"):          # one presentation (alternating which); permutant asked for every third composition
+            pres = pres[sum(comp) % 2:][:1]
+        for pi, (name, pat) in enumerate(pres):
             # a different spelling per presentation: same composition, different residue multisets, so a permutant
             # remembered from another object cannot pass as a rearrangement of this one
             seq = R.spell_base(pat) if pi == 2 else R.spell_rotating(pat, case.get("k", 0) + 3 * pi)
-            v, c, m = check_seq(seq, comp, True, dict(case, presentation=name, seq=seq))
+            v, c, m = check_seq(seq, comp, not case.get("lattice") or sum(comp) % 3 == 0, dict(case, presentation=name, seq=seq))
             out += v
             calls += c
             vals.append((seq, m))
@@ -181,8 +184,29 @@ def run(tier, seed, t0):
                     if N - z - m >= m:
                         extra.add((m, N - z - m, z))
                         extra.add((N - z - m, m, z))
+    # regime intersections and lopsided compositions beyond K (the order in which the four searches are tried matters only here):
+    #  (a) one charge type AND >=18 neutrals; (b) no neutrals, minority 1..8 against a majority up to MJ;
+    #  (c) few neutrals (1 / 17: both ends of the exhaustive-search regime) with a small minority
+    MJ = 48 if tier == "quick" else 96
+    lat = set()
+    for k in range(1, MJ + 1):
+        for z in ([18, 19, 22, 27, 36] if tier == "quick" else list(range(18, 28)) + [30, 36, 45, 60, 90]):
+            lat.add((k, 0, z))
+            lat.add((0, k, z))
+    for m in range(1, 9):
+        for M in range(max(m, NK - m + 1), MJ + 1):
+            lat.add((m, M, 0))
+            lat.add((M, m, 0))
+    for z in ((1, 17) if tier == "quick" else (1, 2, 5, 11, 17)):
+        for m in ((1, 2, 5) if tier == "quick" else (1, 2, 3, 5, 8)):
+            for M in range(25, 41 if tier == "quick" else 61):
+                lat.add((m, M, z))
+                lat.add((M, m, z))
     for c in sorted(extra):
         cases.append({"kind": "presentations", "comp": c, "full": False, "k": sum(c) % 3})
+    for c in sorted(lat - extra):
+        if sum(c) > NK:
+            cases.append({"kind": "presentations", "comp": c, "full": False, "k": sum(c) % 3, "lattice": True})
     cases.sort(key=lambda x: -cost(x["comp"]))
     nsh = 16 * 12
     shards = [cases[i::nsh] for i in range(nsh)]
@@ -191,11 +215,13 @@ def run(tier, seed, t0):
         PROP, tier, seed, acc, t0,
         rule="state = one composition (n+,n-,n0): every composition of total 1..%d, presented as blocks, reversed blocks, "
              "interleaved and two rotations (blocks+reversed only above total %d) in a rotating spelling that mixes K/R, D/E and "
-             "all 16 neutrals; plus every composition with n0>=18 up to total %d (thorough: also minority charge <=6 up to total 80); plus "
+             "all 16 neutrals; plus every composition with n0>=18 up to total %d (thorough: also minority charge <=6 up to total 80); plus the "
+             "regime-intersection lattices: one charge type with n0 in 18,19,22,27,36 and 1..%d charges, no neutrals with a minority of 1..8 "
+             "against a majority up to %d, and n0 in {1,17} with a minority of 1,2,5 against a majority of 25..40 (thorough: wider); plus "
              "every composition of total <=%d with ALL its arrangements. Per presentation: get_deltaMax() "
              "must equal the exact-rational maximum over the documented family, get_deltaMax(True) must return that value and a "
              "rearrangement of the input whose get_delta() equals it; values must agree across presentations. non-trivial = "
-             "compositions with all three classes present; outcomes = distinct delta-max values" % (NK, NF, NZ, NA),
+             "compositions with all three classes present; outcomes = distinct delta-max values" % (NK, NF, NZ, MJ, MJ, NA),
         bounds={"K": NK, "full_presentations_upto": NF, "all_arrangements_upto": NA, "tolerance_abs": TOL},
         assumptions=["documented family re-derived in vmc/refmodel/charge.py:dmax_family; at a block-length tie in the "
                      "one-charge-type regime either reading of the statement is accepted"])
